@@ -38,6 +38,8 @@ def run(tier):
         readers.mm_header_rule(chk, 'C16.mmhdr', prog, cfgname)
         readers.field_slice_rule(chk, 'C16.slice', prog, cfgname)
         readers.scan_width_rule(chk, 'C16.scanw', prog, cfgname)
+        chk.clause('C16.header', 'the fixed-column header records of Harwell-Boeing / Rutherford-Boeing files are consumed field by field as the formats define them')
+        readers.header_layout_rule(chk, 'C16.header', prog, cfgname)
         readers.precision_purity_rule(chk, 'C16.prec', prog, cfgname)
         if readers.terminator_rule(chk, 'C16.term', prog, cfgname) < 16:
             raise AnalysisBroken('C16: fewer than 16 header-field conversions found')
